@@ -519,6 +519,8 @@ proof { if k < ss.len() { assert(ss.take(k + 1).drop_last() =~= ss.take(k)); ass
     final(context).trace().len() == old(context).trace().len() + n_params(inparam_list),
     inparam_list is Some ==> (forall|i: int| 0 <= i < n_params(inparam_list) ==>
         final(context).trace()[old(context).trace().len() + i] == context::Ev::Bind(inparam_list->Some_0.sp_params()[i].sp_string(), *typ)),     //@C09:parameters-get-their-type''')
+    zov['bind_typed_parameter_list']['ghost'] = list(zov['bind_typed_parameter_list'].get('ghost', [])) + [
+        ('                context.new_binding(namestr.as_ref(), &typ, &param)', 'before', 'proof { assert(ptype_ok(param.sp_param_type(), typ)); }      //@C09:parameter-bound-with-the-type-written\n')]
     zov['bind_typed_parameter_list'].update(ret='r', props=['C09', 'C07', 'C03'], loops={1: ITER('oq3_it1', '''
     oq3_v1@.len() + oq3_it1.rest().len() == param_list.sp_typed_params().len(),
     oq3_it1.rest() =~= param_list.sp_typed_params().skip(oq3_v1@.len() as int),
